@@ -3,7 +3,7 @@
 Streams:
   * history correspondence (Coq pool model vs the real classes, state after every op);
   * functional correspondence (functional forms vs the Coq functional models);
-  * EXHAUSTIVE edit distance: all token-list pairs of length <= 3 over 2 symbols, implementation
+  * EXHAUSTIVE edit distance: all token-list pairs of length <= 3 (thorough: <= 4) over 2 symbols, implementation
     (_edit_distance of helper.py and of word_error_rate.py, and through the str.split() glue) vs
     algo (row DP) vs the code's recurrence vs spec (textbook Levenshtein recurrence);
   * random edit distance algo vs spec (lengths <= 7, the spec recursion is exponential);
@@ -65,12 +65,16 @@ def _ed_cases(ctx, s, pairs, label):
 
 
 def edit_distance_streams(ctx):
-    s = ctx.stream("edit-distance-exhaustive (len<=3, 2 symbols): impl vs algo vs spec")
-    seqs = [tuple(x) for n in range(4) for x in itertools.product([0, 1], repeat=n)]
+    maxlen = ctx.n(3, 4)      # thorough: all pairs up to length 4 (961 pairs, 800 of them of different lengths or contents)
+    s = ctx.stream("edit-distance-exhaustive (len<=%d, 2 symbols): impl vs algo vs spec" % maxlen)
+    seqs = [tuple(x) for n in range(maxlen + 1) for x in itertools.product([0, 1], repeat=n)]
     pairs = [(a, b) for a in seqs for b in seqs]
     bad = _ed_cases(ctx, s, pairs, "exh")
     s.exhaustive = True
-    s.note = "%d pairs = all pairs of token lists of length <= 3 over {0,1}" % len(pairs)
+    s.count("pairs-of-different-lengths", sum(1 for a, b in pairs if len(a) != len(b)))
+    s.count("pairs-with-common-prefix-or-suffix",
+            sum(1 for a, b in pairs if a and b and a != b and (a[0] == b[0] or a[-1] == b[-1])))
+    s.note = "%d pairs = all pairs of token lists of length <= %d over {0,1}, equal and different lengths" % (len(pairs), maxlen)
     ctx.oblige("tie:edit-distance-exhaustive:_edit_distance", bad is None, detail=repr(bad)[:800] if bad else "")
     if bad:
         ctx.violation("failing-input", "_edit_distance", {"check": "edit_distance impl/algo/spec", **bad,
